@@ -92,9 +92,11 @@ TServed == More /\ Ev.k = "served" /\ Ev.err = "nil" /\ ServeReturn /\ l' = l + 
 
 \* end of a schedule, after everything was released: every Close call has
 \* returned and Serve has returned nil (observed by the harness)
+\* (late: Close is final - a Serve call made after Close had returned came back with nil at once, and a command sent
+\* after that on a connection still open started no parser and no statement function)
 \* ... and what every connection received, with Close calls going on around its commands, is a sequence of whole,
 \* well-formed backend messages (the writer of a connection is used by its own goroutine only)
-TFinal == More /\ Ev.k = "final" /\ Ev.allret /\ Ev.served /\ Ev.wire /\ l' = l + 1 /\ UNCHANGED <<svars, st>>
+TFinal == More /\ Ev.k = "final" /\ Ev.allret /\ Ev.served /\ Ev.wire /\ Ev.late /\ l' = l + 1 /\ UNCHANGED <<svars, st>>
 
 \* no action for: panic, stuck, served with an error, an arrival at a point
 \* the model does not expect
